@@ -230,8 +230,6 @@ class Interpreter(BaseInterpreter[TContext, TEvent]):
 
         logger.info("🏁 Starting interpreter '%s'...", self.id)
         self.status = "running"
-        # 🌀 Launch the main event loop as a background task.
-        self._event_loop_task = asyncio.create_task(self._run_event_loop())
 
         try:
             # 🔔 Notify plugins that the interpreter is starting.
@@ -253,6 +251,19 @@ class Interpreter(BaseInterpreter[TContext, TEvent]):
             # unrelated event happened to nudge it. `start()` must return a
             # settled configuration in BOTH engines.
             await self._settle_transient_transitions()
+
+            # 🌀 Launch the main event loop only NOW, once the initial
+            #    configuration has settled. It used to be created before the
+            #    initial entry: an entry action that raised (or sent) an event
+            #    and a later entry action that suspended let the loop process
+            #    that event in the middle of the initial descent — leaving,
+            #    for instance, a child active whose parent had already been
+            #    exited. Events raised during start simply wait in the queue,
+            #    exactly as the sync engine's re-entrancy guard makes them.
+            if self.status == "running":
+                self._event_loop_task = asyncio.create_task(
+                    self._run_event_loop()
+                )
 
             logger.info(
                 "✅ Interpreter '%s' started successfully. Current states: %s",
